@@ -13,9 +13,10 @@ from .. import bus, cover, gen, ref
 
 LEVEL = 'exploration'
 JOBS = {'quick': 1, 'thorough': 16}
-REQUIRED_MONITORS = ('min_image_reference', 'symmetry', 'lattice_shift', 'inverse_flag')
+REQUIRED_MONITORS = ('min_image_reference', 'symmetry', 'lattice_shift', 'inverse_flag', 'history_independence')
 REQUIRED_CLASSES = ('box:cubic', 'box:anisotropic', 'box:triclinic', 'arg:residue', 'arg:point',
-                    'placement:across-face', 'placement:far-outside', 'wrapped:yes', 'wrapped:no')
+                    'placement:across-face', 'placement:far-outside', 'wrapped:yes', 'wrapped:no',
+                    'session:same', 'session:rescale-in-place', 'session:new-values-in-place', 'session:other-object')
 RULE = ('pairs (residue, residue-or-point) x box; classes: box kind (cubic / anisotropic rectangular / triclinic with '
         'skew <= 0.4 L), placement (inside, across a face, on a face, many boxes away). Non-trivial: the minimum '
         'image is not the plain separation (some axis wraps). distinct = distinct (box kind, placement, argument '
@@ -96,6 +97,8 @@ def cases(ctx):
     n = 4000 if ctx.tier == 'quick' else 300000
     for b in range(n // 50):
         yield {'batch': b}
+    for b in range(60 if ctx.tier == 'quick' else 4000):
+        yield {'session': b}
 
 
 def make_residue(rng, centre, n):
@@ -146,7 +149,76 @@ def gen_points(rng, cls, box):
     return fa @ box, fb @ box
 
 
+def run_session(ctx, case):
+    """Many calls that pass the SAME box array object (and the same inverse-box object), edited in place between calls
+    (rescaled, replaced by another box's values), on residues that are moved in place between calls.  Every call is
+    judged by the contract against the values the arrays hold at that call, and must return bit for bit what the same
+    call returns with pristine copies of its arguments."""
+    rng = ctx.rng('session', case['session'])
+    box = gen_box(rng, BOXES[int(rng.integers(0, 3))])
+    inv = np.linalg.inv(box)
+    pool = [make_residue(rng, rng.uniform(0, 1, 3) @ box, int(rng.integers(1, 6))) for _ in range(4)]
+    hist = []
+    for step in range(30):
+        op = ['same', 'same', 'rescale-in-place', 'new-values-in-place', 'move-residue', 'other-object'][int(rng.integers(0, 6))] if step else 'same'
+        use_box, use_inv = box, inv
+        if op == 'rescale-in-place':
+            f = float(rng.choice([1.07, 0.93, 2.0, 0.5, rng.uniform(0.8, 1.25)]))
+            if rng.random() < 0.5:
+                box *= f
+            else:
+                box[int(rng.integers(0, 3))] *= f
+            inv[:] = np.linalg.inv(box)
+        elif op == 'new-values-in-place':
+            box[:] = gen_box(rng, BOXES[int(rng.integers(0, 3))])
+            inv[:] = np.linalg.inv(box)
+        elif op == 'move-residue':
+            pool[int(rng.integers(0, 4))].move(rng.normal(size=3) * float(np.abs(box).max()) * float(rng.choice([0.1, 1, 5])))
+        elif op == 'other-object':
+            use_box = gen_box(rng, BOXES[int(rng.integers(0, 3))])
+            use_inv = np.linalg.inv(use_box)
+        ctx.hit('session:' + op)
+        hist.append(op)
+        i, j = (int(x) for x in rng.choice(4, 2, replace=False))
+        a = pool[i]
+        b = pool[j] if rng.random() < 0.6 else np.array(pool[j].geometric_center)
+        w = {'history': list(hist), 'box': use_box.copy(), 'a': a.geometric_center, 'b': np.array(b.geometric_center if hasattr(b, 'geometric_center') else b)}
+        # the four calls of a step in random order (so that the re-used objects are often passed in consecutive
+        # library calls, across the in-place edit, and often not)
+        calls = {'box': lambda: a.distance_to(b, box_vects=use_box),
+                 'box-pristine': lambda: a.copy().distance_to(b.copy(), box_vects=use_box.copy()),
+                 'inv': lambda: a.distance_to(b, box_vects=use_inv, inv=True),
+                 'inv-pristine': lambda: a.copy().distance_to(b.copy(), box_vects=use_inv.copy(), inv=True)}
+        order = [list(calls)[k] for k in rng.permutation(4)]
+        if rng.random() < 0.5:
+            order.append(['box', 'inv'][int(rng.integers(0, 2))])     # the step ends on a re-used object
+        got = {}
+        ok = True
+        for name in order:
+            v = calls[name]()
+            ctx.count('evaluations')
+            if name in got and not (got[name] == v):
+                ctx.violation('distance-depends-on-earlier-calls', f'the same call repeated within one step: {got[name]!r} then {v!r}', witness=w)
+                ok = False
+            got[name] = v
+        ctx.monitor('history_independence', 2)
+        if not (got['box'] == got['box-pristine']):
+            ctx.violation('distance-depends-on-earlier-calls', f'same arguments, box object re-used: {got["box"]!r}; pristine copies: {got["box-pristine"]!r} (after {op}, order {order})', witness=w)
+            ok = False
+        if not (got['inv'] == got['inv-pristine']):
+            ctx.violation('distance-depends-on-earlier-calls:inv', f'inverse-box object re-used: {got["inv"]!r}; pristine copies: {got["inv-pristine"]!r} (after {op}, order {order})', witness=w)
+            ok = False
+        ctx.monitor('inverse_flag')
+        if abs(got['inv'] - got['box']) > 1e-9 * float(np.abs(use_box).max()):
+            ctx.violation('distance-inverse-flag-differs', f'box: {got["box"]:.12g}, inverse box with inv=True: {got["inv"]:.12g}', witness=w)
+        if not ok:
+            return
+    ctx.nontrivial(('session', tuple(sorted(set(hist)))))
+
+
 def run_case(ctx, case):
+    if 'session' in case:
+        return run_session(ctx, case)
     rng = ctx.rng('batch', case['batch'])
     for it in range(50):
         bcls = BOXES[int(rng.integers(0, 3))]
